@@ -16,6 +16,7 @@ EPS = 1e-6
 NL = 2
 PALETTE = ['000000', 'ff0000', '00ff00', '0000ff', 'ffffff']
 KINDS = ('played', 'looped', 'completed', 'stopped')
+XKINDS = ('advanced', 'stepped_back', 'paused', 'resumed', 'updated')
 SLOT_KEYS = ('durs', 'lt', 'col', 'coil', 'sp', 'loops', 'start', 'sync', 'manual', 'prio', 'key', 'blockq',
              'pool', 'via', 'form', 'tok', 'share')
 
@@ -69,6 +70,9 @@ TABLE = [
     # --- the same show file played twice with different token values (per-token-set step cache)
     CFG(21, 100, S([1, 2], lt=[1, 2], col=[1, 2], loops=-1, prio=1, key='a', tok=True),
         S([1, 2], lt=[2, 1], col=[3, 4], loops=1, prio=3, key='b', tok=True, share=1, via='direct')),
+    # --- speeds that put the steps off the millisecond grid (unit = 100/3 ms, 100/7 ms; step times are whole units)
+    CFG(22, 100.0 / 3, S([3, 6, 3], lt=[1, 2, 1], sp=(3, 1), loops=-1)),
+    CFG(23, 100.0 / 7, S([7, 14], lt=[1, 2], sp=(7, 1), loops=3, start=2)),
     # --- two shows holding the same coil
     CFG(20, 100, S([1, 2], coil=[1, 0], loops=-1, prio=1, key='a'), S([2, 1], lt=[2, 2], coil=[0, 1], loops=0, prio=2, key='b')),
 ]
@@ -103,7 +107,7 @@ def tokens(sc, sh):
 
 
 def _ms(units, unit):
-    return '%dms' % (units * unit)
+    return '%dms' % round(units * unit)
 
 
 def show_yaml(cid, sh, sc, unit):
@@ -160,7 +164,7 @@ def write_machine(scratch):
             player += ['  vs_play_%d_%d:' % (cid, sh), '    %s:' % play_target(cid, sh, sc),
                        '      key: %s' % key_name(cid, sc), '      priority: %d' % sc['prio'], '      speed: %r' % sp,
                        '      loops: %d' % sc['loops'], '      start_step: %d' % sc['start'],
-                       '      sync_ms: %d' % (sc['sync'] * unit),
+                       '      sync_ms: %d' % round(sc['sync'] * unit),
                        '      manual_advance: %s' % ('true' if sc['manual'] else 'false'),
                        '      block_queue: %s' % ('true' if sc['blockq'] else 'false')]
             tk = tokens(sc, sh)
@@ -168,6 +172,9 @@ def write_machine(scratch):
                 player.append('      show_tokens:')
                 player += ['        %s: "%s"' % kv for kv in sorted(tk.items())]
             player += ['      events_when_%s: vs_%d_%d_%s' % (k, cid, sh, k) for k in KINDS]
+            # further per-request events are configured as real shows do (nobody listens): the lists they come from must
+            # not leak into the four events the statement names
+            player += ['      events_when_%s: vx_%d_%d_%s' % (k, cid, sh, k) for k in XKINDS]
             keys.add(key_name(cid, sc))
         for k in sorted(keys):
             for a in ('stop', 'pause', 'resume', 'advance', 'step_back'):
@@ -415,7 +422,8 @@ def _exec(mdir, cid, sched, skip, dynamic):
                 rs[sh] = m.shows[play_target(cid, sh, sc)].play(
                     priority=sc['prio'], speed=sc['sp'][0] / sc['sp'][1], start_step=sc['start'], loops=sc['loops'],
                     sync_ms=sc['sync'] * c['unit'], manual_advance=sc['manual'], show_tokens=tokens(sc, sh),
-                    **{'events_when_' + k: ['vs_%d_%d_%s' % (cid, sh, k)] for k in KINDS})
+                    **dict({'events_when_' + k: ['vs_%d_%d_%s' % (cid, sh, k)] for k in KINDS},
+                           **{'events_when_' + k: ['vx_%d_%d_%s' % (cid, sh, k)] for k in XKINDS}))
             if rs[sh] is not None:
                 _H['rs'].append(rs[sh])
         elif op == 'stop':
